@@ -169,7 +169,7 @@ def generate(rng, tier):
     if rng.random() < 0.5:
         # how the report is rendered is an option: every choice must render every failure
         rc_cfg = {'reportchoice': rng.choice(['udiff', 'cdiff', 'ndiff', 'none', 'only_first_failure']),
-                  'colored': rng.random() < 0.5, 'partnos': rng.random() < 0.3}
+                  'colored': rng.random() < 0.5, 'partnos': rng.random() < 0.3, 'offset_linenos': rng.random() < 0.3}
         for op in ops:
             if op['op'] in ('run_obj', 'runner'):
                 op['config'] = dict(rc_cfg)
